@@ -26,7 +26,7 @@ def run_part(ctx):
         ctx.corr(hx, ["hist", "--n", "600", "--len", "30"], cases_name="c12a_cases.v")
     ctx.assumptions += [
         "c12a: the float32 shrinking ratio is modelled as an exact rational (exact for the small counters and dyadic/short ratios used; float rounding near 2^24 deletions is outside the model)",
-        "c12a: heap theorems assume the user comparator is a strict weak order (asymmetric, negatively transitive); discharged for the ascending, descending and tie-heavy comparators used",
+        "c12a: heap ordering theorems (heap invariant, Pop/Peek = minimum, PopAll sorted) assume the user comparator is a strict weak order (CompareTo<0 asymmetric, negatively transitive); PopUntil-exact additionally assumes the three-way contract a>b iff b<a; both discharged for the ascending, descending and tie-heavy comparators used (index/contents/handle theorems hold for any comparator)",
         "c12a: Queue/RingBuffer refinement is guarded by capacity >= 1 (capacity 0 panics in ForceOffer/Add: modelled and checked as a panic outcome); negative capacities panic in make()",
         "c12a: Go map iteration order is unconstrained: Pop's choice is replayed from the observation, listings are compared sorted",
     ]
